@@ -78,4 +78,9 @@ class Trace(list):
       if not re.match(r"^-?[0-9]+\Z", v):
         raise gfapy.FormatError("string does not encode"+
             " a valid trace alignment: {}".format(repr(string)))
-    return Trace([int(v) for v in elems])
+    try:
+      return Trace([int(v) for v in elems])
+    except ValueError:
+      # more digits than int() converts
+      raise gfapy.FormatError("string does not encode"+
+          " a valid trace alignment: an element is too long")
